@@ -664,10 +664,14 @@ func runC18(c *Ctx) {
 				idx := r.Vals[0]
 				prev := u2.mk("index", "", types.Typ[types.Uint8], g2.ParamExprs(fcm)[0], u2.Bin(binTokens["-"], idx, u2.Int(1), types.Typ[types.Int]))
 				isSp := u2.ToBool(u2.Eq(prev, u2.ConstVal(constantInt(' '), types.Typ[types.Uint8])))
+				isTab := u2.ToBool(u2.Eq(prev, u2.ConstVal(constantInt('\t'), types.Typ[types.Uint8])))
 				pos := u2.ToBool(u2.Lt(u2.Int(0), idx))
 				found = true
 				if u2.bdd.And(r.Cond, u2.bdd.And(pos, isSp)) != False {
 					bad = "a marker preceded by a blank is accepted as cosmetic: '0.0.0.0 host  ## comment' would no longer be a hosts line"
+				} else if u2.bdd.And(r.Cond, u2.bdd.And(pos, isTab)) != False {
+					// the blanks of a hosts file are the space and the tab (the tokenizer's set, R2/R3)
+					bad = "a marker preceded by a tab is accepted as cosmetic: '0.0.0.0 host<TAB>## comment' is rejected as a broken element-hiding rule and its names are lost"
 				}
 				// only the FIRST occurrence of a marker character can start a marker: a later '#' is a
 				// hosts-file comment (### section, # see ##2), not cosmetic syntax
@@ -683,7 +687,7 @@ func runC18(c *Ctx) {
 			if !found {
 				bad = "UNDECIDED: no positive return"
 			}
-			c.Check(bad == "", "C18.R6", "findCosmeticRuleMarker: a marker preceded by a blank is not cosmetic syntax", fcm.Pos(), "every positive return excludes text[i-1] == ' ' for i > 0 and is the first occurrence of the marker character", bad)
+			c.Check(bad == "", "C18.R6", "findCosmeticRuleMarker: a marker preceded by a blank is not cosmetic syntax", fcm.Pos(), "every positive return excludes a space or a tab at text[i-1] for i > 0 and is the first occurrence of the marker character", bad)
 		}
 	}
 
